@@ -4,8 +4,20 @@ Invariants that do not care about the exclusive slot or about which callbacks a 
 carries: they get their `Spec` from plain writer lemmas.  `LeafYR`/`LeafXR` sit on the weak chain
 (`LeafR`: no `setStatus … .stopped`, no `spawnAdopt`, no `setClosed`; the places that need them are
 given separately to `SpecCoreR.ofLeafYR` / `SpecR.ofLeafXR`), `LeafY`/`LeafX` on the full one.
+`LeafYRE`/`LeafXRE` are the same on the `E` chain (events restricted); the proofs are done there.
 -/
 namespace Circus.Core
+
+structure LeafYRE (I : State → Prop) : Prop extends LeafRE I where
+  setSlot : ∀ v, Pres I (setSlot v)
+  pushTop : ∀ t, Pres I (pushTop t)
+  finishTop : ∀ t v, Pres I (finishTop t v)
+  topAddCb : ∀ t cb, Pres I (topAddCb t cb)
+  enqueue : ∀ r, Pres I (enqueue r)
+  dequeue : Pres I dequeue
+
+structure LeafXRE (I : State → Prop) : Prop extends LeafYRE I where
+  emitRep : ∀ c i a b d, Pres I (emitRep c i a b d)
 
 structure LeafYR (I : State → Prop) : Prop extends LeafR I where
   setSlot : ∀ v, Pres I (setSlot v)
@@ -30,8 +42,8 @@ structure LeafY (I : State → Prop) : Prop extends Leaf I where
 structure LeafX (I : State → Prop) : Prop extends LeafY I where
   emitRep : ∀ c i a b d, Pres I (emitRep c i a b d)
 
-attribute [aesop safe apply (rule_sets := [Pres])] LeafXR.emitRep LeafYR.setSlot LeafYR.pushTop LeafYR.finishTop LeafYR.topAddCb
-  LeafYR.enqueue LeafYR.dequeue LeafXR.toLeafYR LeafYR.toLeafR
+attribute [aesop safe apply (rule_sets := [Pres])] LeafXRE.emitRep LeafYRE.setSlot LeafYRE.pushTop LeafYRE.finishTop LeafYRE.topAddCb
+  LeafYRE.enqueue LeafYRE.dequeue LeafXRE.toLeafYRE
 
 section
 variable {I : State → Prop}
@@ -39,17 +51,20 @@ variable {I : State → Prop}
 macro "presx" : tactic =>
   `(tactic| aesop (rule_sets := [Pres]) (config := { terminal := true, useDefaultSimpSet := false, useSimpAll := false, maxRuleApplications := 3000 }))
 
-theorem runTopCb_presR (X : LeafXR I) (v : Val) (cb : TopCb) : Pres I (runTopCb v cb) := by
-  have L := X.toLeafR
-  have hsr := sendReply_presR L X.emitRep
+theorem runTopCb_presE (X : LeafXRE I) (v : Val) (cb : TopCb) : Pres I (runTopCb v cb) := by
+  have L := X.toLeafRE
+  have LW := L.toLeafWE
+  have hsr := sendReply_presE L X.emitRep
   cases cb <;> simp only [runTopCb] <;> presx
 
-theorem newTop_presR (X : LeafYR I) (cbs : List TopCb) : Pres I (newTop cbs) := by
-  have L := X.toLeafR
+theorem newTop_presE (X : LeafYRE I) (cbs : List TopCb) : Pres I (newTop cbs) := by
+  have L := X.toLeafRE
+  have LW := L.toLeafWE
   unfold newTop; presx
 
-theorem deliverCbs_presR (X : LeafYR I) (armed : Bool) (v : Val) (cbs : List TopCb) : Pres I (deliverCbs armed v cbs) := by
-  have L := X.toLeafR
+theorem deliverCbs_presE (X : LeafYRE I) (armed : Bool) (v : Val) (cbs : List TopCb) : Pres I (deliverCbs armed v cbs) := by
+  have L := X.toLeafRE
+  have LW := L.toLeafWE
   have h : Pres I (runTopCb v TopCb.release) := by simp only [runTopCb]; exact X.setSlot _
   induction cbs with
   | nil => unfold deliverCbs; presx
@@ -58,34 +73,40 @@ theorem deliverCbs_presR (X : LeafYR I) (armed : Bool) (v : Val) (cbs : List Top
     aesop (add safe apply h, safe apply ih) (rule_sets := [Pres])
       (config := { terminal := true, useDefaultSimpSet := false, useSimpAll := false, maxRuleApplications := 3000 })
 
-theorem deliverTop_presR (X : LeafYR I) (tid : Nat) (v : Val) : Pres I (deliverTop tid v) := by
-  have L := X.toLeafR
-  have h := deliverCbs_presR X
+theorem deliverTop_presE (X : LeafYRE I) (tid : Nat) (v : Val) : Pres I (deliverTop tid v) := by
+  have L := X.toLeafRE
+  have LW := L.toLeafWE
+  have h := deliverCbs_presE X
   unfold deliverTop
   aesop (add safe apply h) (rule_sets := [Pres]) (config := { terminal := true, useDefaultSimpSet := false, useSimpAll := false, maxRuleApplications := 3000 })
 
-theorem addDoneCallback_presR (X : LeafYR I) (tid : Nat) (cb : TopCb) : Pres I (addDoneCallback tid cb) := by
-  have L := X.toLeafR
+theorem addDoneCallback_presE (X : LeafYRE I) (tid : Nat) (cb : TopCb) : Pres I (addDoneCallback tid cb) := by
+  have L := X.toLeafRE
+  have LW := L.toLeafWE
   unfold addDoneCallback; presx
 
-theorem syncCoroutine_presxR (X : LeafYR I) (he : ∀ n t, Pres I (exec n t)) (name : String) (c : Call) (extra : List TopCb) :
+theorem syncCoroutine_presxE (X : LeafYRE I) (he : ∀ n t, Pres I (exec n t)) (name : String) (c : Call) (extra : List TopCb) :
     Pres I (syncCoroutine name c extra) := by
-  have L := X.toLeafR
-  have h := newTop_presR X
+  have L := X.toLeafRE
+  have LW := L.toLeafWE
+  have h := newTop_presE X
   unfold syncCoroutine
   aesop (add safe apply h, safe apply he) (rule_sets := [Pres]) (config := { terminal := true, useDefaultSimpSet := false, useSimpAll := false, maxRuleApplications := 3000 })
 
-theorem syncPlain_presxR (X : LeafYR I) {α : Type} (name : String) (body : M (R α)) (hb : Pres I body) :
+theorem syncPlain_presxE (X : LeafYRE I) {α : Type} (name : String) (body : M (R α)) (hb : Pres I body) :
     Pres I (syncPlain name body) := by
-  have L := X.toLeafR
+  have L := X.toLeafRE
+  have LW := L.toLeafWE
   unfold syncPlain
   aesop (add safe apply hb) (rule_sets := [Pres]) (config := { terminal := true, useDefaultSimpSet := false, useSimpAll := false, maxRuleApplications := 3000 })
 
-theorem setOpt_presR (L : LeafR I) (u : Nat) (k : String) (v : JVal) : Pres I (setOpt u k v) := by
+theorem setOpt_presE (L : LeafRE I) (u : Nat) (k : String) (v : JVal) : Pres I (setOpt u k v) := by
+  have LW := L.toLeafWE
   unfold setOpt; presx
 
-theorem setOptBody_presR (L : LeafR I) (u : Nat) (k : String) (v : JVal) (b : Bool) : Pres I (setOptBody u k v b) := by
-  have h := setOpt_presR L
+theorem setOptBody_presE (L : LeafRE I) (u : Nat) (k : String) (v : JVal) (b : Bool) : Pres I (setOptBody u k v b) := by
+  have LW := L.toLeafWE
+  have h := setOpt_presE L
   unfold setOptBody
   aesop (add safe apply h) (rule_sets := [Pres]) (config := { terminal := true, useDefaultSimpSet := false, useSimpAll := false, maxRuleApplications := 3000 })
 
@@ -108,7 +129,8 @@ theorem applyAddOptions_pids (l : List (String × JVal)) :
         | (simp only [Option.map_eq_some_iff] at hw1; obtain ⟨n, _, hn⟩ := hw1; rw [← hn])
     · exact absurd h (by simp)
 
-theorem addCore_presR (L : LeafR I) (p : JVal) : Pres I (addCore p) := by
+theorem addCore_presE (L : LeafRE I) (p : JVal) : Pres I (addCore p) := by
+  have LW := L.toLeafWE
   unfold addCore
   split <;> dsimp only <;> split
   all_goals first
@@ -123,22 +145,111 @@ theorem addCore_presR (L : LeafR I) (p : JVal) : Pres I (addCore p) := by
            aesop (add safe apply hr) (rule_sets := [Pres]) (config := { terminal := true, useDefaultSimpSet := false, useSimpAll := false, maxRuleApplications := 3000 }))
     | presx
 
-theorem runReady1_presR (X : LeafXR I) (rec : Rec) (hrec : ∀ t, Pres I (rec t)) (hq : Pres I sigQuit)
+theorem runReady1_presE (X : LeafXRE I) (rec : Rec) (hrec : ∀ t, Pres I (rec t)) (hq : Pres I sigQuit)
     (hsc : Pres I stopController) (r : Ready) :
     Pres I (runReady1 rec r) := by
-  have L := X.toLeafR
-  have h := runTopCb_presR X
+  have L := X.toLeafRE
+  have LW := L.toLeafWE
+  have h := runTopCb_presE X
   cases r <;> simp only [runReady1] <;>
   aesop (add safe apply h, safe apply hrec, safe apply hq, safe apply hsc) (rule_sets := [Pres])
     (config := { terminal := true, useDefaultSimpSet := false, useSimpAll := false, maxRuleApplications := 3000 })
 
-theorem settleStep_presR (X : LeafXR I) (he : ∀ n t, Pres I (exec n t)) (hq : Pres I sigQuit)
+theorem settleStep_presE (X : LeafXRE I) (he : ∀ n t, Pres I (exec n t)) (hq : Pres I sigQuit)
     (hsc : Pres I stopController) :
     Pres I settleStep := by
-  have L := X.toLeafR
-  have h := runReady1_presR X (exec 100000) (he 100000) hq hsc
+  have L := X.toLeafRE
+  have LW := L.toLeafWE
+  have h := runReady1_presE X (exec 100000) (he 100000) hq hsc
   unfold settleStep
   aesop (add safe apply h) (rule_sets := [Pres]) (config := { terminal := true, useDefaultSimpSet := false, useSimpAll := false, maxRuleApplications := 3000 })
+
+/-- slot-insensitive invariants: writer lemmas plus the three guarded places are enough (everything
+    up to, but not including, the reply path and the event loop) -/
+theorem SpecCoreRE.ofLeafYRE (X : LeafYRE I)
+    (hsp : ∀ rec, (∀ t, Pres I (rec t)) → ∀ u, Pres I (Circus.Core.spawnProcess rec u))
+    (hst : ∀ u, Pres I (Circus.Core.stopCore u)) (hgs : ∀ u, Pres I (Circus.Core.guardedStop u)) : SpecCoreRE I where
+  toLeafRE := X.toLeafRE
+  deliverTop := deliverTop_presE X
+  newTopNR := fun cbs _ => newTop_presE X cbs
+  addDone := fun tid cb _ => addDoneCallback_presE X tid cb
+  syncCo := fun he name c => syncCoroutine_presxE X he name c []
+  syncSetOpt := fun u k v b => syncPlain_presxE X _ _ (setOptBody_presE X.toLeafRE u k v b)
+  syncAdd := fun p => syncPlain_presxE X _ _ (addCore_presE X.toLeafRE p)
+  spawnProcess := hsp
+  stopCore := hst
+  guardedStop := hgs
+
+theorem SpecMRE.ofLeafXRE (X : LeafXRE I)
+    (hsp : ∀ rec, (∀ t, Pres I (rec t)) → ∀ u, Pres I (Circus.Core.spawnProcess rec u))
+    (hst : ∀ u, Pres I (Circus.Core.stopCore u)) (hgs : ∀ u, Pres I (Circus.Core.guardedStop u)) : SpecMRE I where
+  toSpecCoreRE := SpecCoreRE.ofLeafYRE X.toLeafYRE hsp hst hgs
+  emitRep := X.emitRep
+
+theorem SpecRE.ofLeafXRE (X : LeafXRE I)
+    (hsp : ∀ rec, (∀ t, Pres I (rec t)) → ∀ u, Pres I (Circus.Core.spawnProcess rec u))
+    (hst : ∀ u, Pres I (Circus.Core.stopCore u)) (hgs : ∀ u, Pres I (Circus.Core.guardedStop u))
+    (hsc : Pres I Circus.Core.stopController) : SpecRE I where
+  toSpecMRE := SpecMRE.ofLeafXRE X hsp hst hgs
+  settleStep := fun he hq => settleStep_presE X he hq hsc
+  stopController := hsc
+
+/-! ### the `R` chain -/
+
+theorem LeafYR.toLeafYRE (X : LeafYR I) : LeafYRE I where
+  toLeafRE := X.toLeafR.toLeafRE
+  setSlot := X.setSlot
+  pushTop := X.pushTop
+  finishTop := X.finishTop
+  topAddCb := X.topAddCb
+  enqueue := X.enqueue
+  dequeue := X.dequeue
+
+theorem LeafXR.toLeafXRE (X : LeafXR I) : LeafXRE I where
+  toLeafYRE := X.toLeafYR.toLeafYRE
+  emitRep := X.emitRep
+
+theorem runTopCb_presR (X : LeafXR I) (v : Val) (cb : TopCb) : Pres I (runTopCb v cb) :=
+  runTopCb_presE X.toLeafXRE v cb
+
+theorem newTop_presR (X : LeafYR I) (cbs : List TopCb) : Pres I (newTop cbs) :=
+  newTop_presE X.toLeafYRE cbs
+
+theorem deliverCbs_presR (X : LeafYR I) (armed : Bool) (v : Val) (cbs : List TopCb) : Pres I (deliverCbs armed v cbs) :=
+  deliverCbs_presE X.toLeafYRE armed v cbs
+
+theorem deliverTop_presR (X : LeafYR I) (tid : Nat) (v : Val) : Pres I (deliverTop tid v) :=
+  deliverTop_presE X.toLeafYRE tid v
+
+theorem addDoneCallback_presR (X : LeafYR I) (tid : Nat) (cb : TopCb) : Pres I (addDoneCallback tid cb) :=
+  addDoneCallback_presE X.toLeafYRE tid cb
+
+theorem syncCoroutine_presxR (X : LeafYR I) (he : ∀ n t, Pres I (exec n t)) (name : String) (c : Call) (extra : List TopCb) :
+    Pres I (syncCoroutine name c extra) :=
+  syncCoroutine_presxE X.toLeafYRE he name c extra
+
+theorem syncPlain_presxR (X : LeafYR I) {α : Type} (name : String) (body : M (R α)) (hb : Pres I body) :
+    Pres I (syncPlain name body) :=
+  syncPlain_presxE X.toLeafYRE name body hb
+
+theorem setOpt_presR (L : LeafR I) (u : Nat) (k : String) (v : JVal) : Pres I (setOpt u k v) :=
+  setOpt_presE L.toLeafRE u k v
+
+theorem setOptBody_presR (L : LeafR I) (u : Nat) (k : String) (v : JVal) (b : Bool) : Pres I (setOptBody u k v b) :=
+  setOptBody_presE L.toLeafRE u k v b
+
+theorem addCore_presR (L : LeafR I) (p : JVal) : Pres I (addCore p) :=
+  addCore_presE L.toLeafRE p
+
+theorem runReady1_presR (X : LeafXR I) (rec : Rec) (hrec : ∀ t, Pres I (rec t)) (hq : Pres I sigQuit)
+    (hsc : Pres I stopController) (r : Ready) :
+    Pres I (runReady1 rec r) :=
+  runReady1_presE X.toLeafXRE rec hrec hq hsc r
+
+theorem settleStep_presR (X : LeafXR I) (he : ∀ n t, Pres I (exec n t)) (hq : Pres I sigQuit)
+    (hsc : Pres I stopController) :
+    Pres I settleStep :=
+  settleStep_presE X.toLeafXRE he hq hsc
 
 /-- slot-insensitive invariants: writer lemmas plus the three guarded places are enough (everything
     up to, but not including, the reply path and the event loop) -/
